@@ -106,4 +106,66 @@ theorem dwt2_zero_local (hc0 hc1 hr0 hr1 : List R) (hLc : hc1.length = hc0.lengt
     band_zero_local hc0 hr1 x x' H W hx hx' hH hW p q (by rw [hLr]; exact hq) (by rw [hLr]; exact hw),
     band_zero_local hc1 hr1 x x' H W hx hx' hH hW p q (by rw [hLr]; exact hq) (by rw [hLc, hLr]; exact hw)⟩
 
+/-! ### J levels in two dimensions -/
+
+theorem band_rect (hc hr : List R) (x : Img R) (H W : Nat) (hx : Rect x H W) (hH : 1 ≤ H) (hW : 1 ≤ W) (hLr : 2 ≤ hr.length) :
+    Rect (Spec.colsMap (Spec.dwt .zero hc) (Spec.rowsMap (Spec.dwt .zero hr) x)) (dwtCoeffLen H hc.length) (dwtCoeffLen W hr.length) := by
+  have r1 : Rect (Spec.rowsMap (Spec.dwt .zero hr) x) H (dwtCoeffLen W hr.length) := by
+    have e : Spec.rowsMap (Spec.dwt .zero hr) x = tab2 H (dwtCoeffLen W hr.length) fun i j => getN (Spec.dwt .zero hr (x.getD i [])) j :=
+      alongW_get' _ x H W _ hx (fun c hc' => by rw [dwt_zero_len, hc'])
+    rw [e]; exact tab2_rect _ _ _
+  have hKw : 1 ≤ dwtCoeffLen W hr.length := by unfold dwtCoeffLen; omega
+  have e : Spec.colsMap (Spec.dwt .zero hc) (Spec.rowsMap (Spec.dwt .zero hr) x)
+      = tab2 (dwtCoeffLen H hc.length) (dwtCoeffLen W hr.length) fun i j => getN (Spec.dwt .zero hc (col (Spec.rowsMap (Spec.dwt .zero hr) x) j)) i :=
+    alongH_get' _ _ H _ _ r1 hH hKw (fun c hc' => by rw [dwt_zero_len, hc'])
+  rw [e]; exact tab2_rect _ _ _
+
+theorem get2_oob (y : Img R) (K Kw : Nat) (hy : Rect y K Kw) (p q : Nat) (h : K ≤ p ∨ Kw ≤ q) : get2 y p q = 0 := by
+  unfold get2
+  by_cases hp : p < K
+  · have hl : (y.getD p []).length = Kw := rowlen y K Kw hy p hp
+    rw [List.getD_eq_default (y.getD p []) _ (by rw [hl]; omega)]
+  · rw [List.getD_eq_default y [] (by rw [hy.1]; omega)]; rfl
+
+/-- the low-pass band of one level on a rectangle of coefficient indices -/
+theorem low_zero_agree (hc hr : List R) (hLr : 2 ≤ hr.length) (x x' : Img R) (H W : Nat) (hx : Rect x H W) (hx' : Rect x' H W) (hH : 1 ≤ H) (hW : 1 ≤ W)
+    (r0 r1 c0 c1 : Int)
+    (hw : AgreeOn2 x x' (2 * r0 + 1 - ((hc.length : Int) - 1)) (2 * r1 + 1) (2 * c0 + 1 - ((hr.length : Int) - 1)) (2 * c1 + 1)) :
+    AgreeOn2 (Spec.colsMap (Spec.dwt .zero hc) (Spec.rowsMap (Spec.dwt .zero hr) x))
+      (Spec.colsMap (Spec.dwt .zero hc) (Spec.rowsMap (Spec.dwt .zero hr) x')) r0 r1 c0 c1 := by
+  intro p q hp0 hp1 hq0 hq1
+  by_cases hq : q < dwtCoeffLen W hr.length
+  · apply band_zero_local hc hr x x' H W hx hx' hH hW p q hq
+    intro i j hi0 hi1 hj0 hj1
+    exact hw i j (by omega) (by omega) (by omega) (by omega)
+  · rw [get2_oob _ _ _ (band_rect hc hr x H W hx hH hW hLr) p q (Or.inr (by omega)),
+      get2_oob _ _ _ (band_rect hc hr x' H W hx' hH hW hLr) p q (Or.inr (by omega))]
+
+/-- **`J` levels of `pywt.wavedec2` (mode zero): the low-pass coefficients with indices in `[r0, r1] × [c0, c1]` read the rectangle
+`[2^J r0 − (2^J − 1)(Lc − 1), 2^J r1 + 2^J − 1] × [2^J c0 − (2^J − 1)(Lr − 1), 2^J c1 + 2^J − 1]` of their image** -/
+theorem wavedec2_low_agree (hc0 hc1 hr0 hr1 : List R) (hLc : 2 ≤ hc0.length) (hLr : 2 ≤ hr0.length) :
+    ∀ (J : Nat) (x x' : Img R) (H W : Nat) (r0 r1 c0 c1 : Int), Rect x H W → Rect x' H W → 1 ≤ H → 1 ≤ W →
+    AgreeOn2 x x' ((2:Int) ^ J * r0 - ((2:Int) ^ J - 1) * ((hc0.length : Int) - 1)) ((2:Int) ^ J * r1 + (2:Int) ^ J - 1)
+      ((2:Int) ^ J * c0 - ((2:Int) ^ J - 1) * ((hr0.length : Int) - 1)) ((2:Int) ^ J * c1 + (2:Int) ^ J - 1) →
+    AgreeOn2 (Spec.wavedec2 .zero hc0 hc1 hr0 hr1 J x).1 (Spec.wavedec2 .zero hc0 hc1 hr0 hr1 J x').1 r0 r1 c0 c1
+  | 0, x, x', H, W, r0, r1, c0, c1, _, _, _, _, hw => by
+    simp only [Spec.wavedec2]
+    intro i j h1 h2 h3 h4
+    exact hw i j (by simp; omega) (by simp; omega) (by simp; omega) (by simp; omega)
+  | J+1, x, x', H, W, r0, r1, c0, c1, hx, hx', hH, hW, hw => by
+    simp only [Spec.wavedec2, Spec.dwt2]
+    have e2 : (2:Int) ^ (J + 1) = 2 * (2:Int) ^ J := by rw [pow_succ]; ring
+    rw [e2] at hw
+    have hK : 1 ≤ dwtCoeffLen H hc0.length := by unfold dwtCoeffLen; omega
+    have hKw : 1 ≤ dwtCoeffLen W hr0.length := by unfold dwtCoeffLen; omega
+    apply wavedec2_low_agree hc0 hc1 hr0 hr1 hLc hLr J _ _ _ _ r0 r1 c0 c1 (band_rect hc0 hr0 x H W hx hH hW hLr)
+      (band_rect hc0 hr0 x' H W hx' hH hW hLr) hK hKw
+    apply low_zero_agree hc0 hr0 hLr x x' H W hx hx' hH hW
+    intro i j h1 h2 h3 h4
+    apply hw i j
+    · linarith
+    · linarith
+    · linarith
+    · linarith
+
 end WV.C07X
